@@ -293,6 +293,51 @@ func runBatch(run *sim.Run, batch int) {
 				nMe++
 			}
 		}
+		// some requests are answered by ANOTHER selected validator first (min_count is 1, so they resolve): the event
+		// reaches this daemon late. The request still selects the validator, the chain still takes its report until the
+		// request expires, and a validator that never reports is deactivated at expiry - so a report is due all the same
+		var early [][]byte
+		nEarly := 0
+		for _, r := range reqs {
+			if !r.hasMe || len(r.chosen) < 2 || !rng.Chance(1, 4) {
+				continue
+			}
+			for vi, v := range w.Vals {
+				if vi == 0 {
+					continue
+				}
+				sel := false
+				for _, cv := range r.chosen {
+					if cv == v.Val.String() {
+						sel = true
+					}
+				}
+				if !sel {
+					continue
+				}
+				var raws []oracletypes.RawReport
+				for e := range r.ids {
+					raws = append(raws, oracletypes.NewRawReport(oracletypes.ExternalID(e), 0, []byte("other")))
+				}
+				early = append(early, w.SignTx(v, oracletypes.NewMsgReportData(oracletypes.RequestID(r.id), raws, v.Val)))
+				nEarly++
+				break
+			}
+		}
+		if len(early) > 0 {
+			eresp, err := w.Block(early, time.Second)
+			if err != nil {
+				violate("finalize-block-failed", err.Error(), nil)
+				return false
+			}
+			for i, tr := range eresp.TxResults {
+				if tr.Code != 0 {
+					run.Inconclusive(fmt.Sprintf("batch %d: report %d of another validator rejected: %s", batch, i, tr.Log))
+					return false
+				}
+			}
+			run.Count("requests-already-resolved-by-others-when-the-event-arrives", nEarly)
+		}
 		base := runtime.NumGoroutine()
 		// fire all tx events concurrently, as the event loop does
 		order := rng.Perm(len(reqs))
@@ -516,7 +561,7 @@ func main() {
 	}
 	for _, cn := range []string{"reports-checked", "raw:success", "raw:nonzero-exit", "raw:executor-error-255", "raw:fetch-failed-255",
 		"raw:executable-shorter-than-32-bytes", "requests-not-selecting-me-skipped", "rpc:transient-error", "rpc:data-nonzero-code", "rpc:data-persistent-error",
-		"reports-with-10+-raw-requests", "reports-accepted-by-chain", "data-sources-edited-while-the-daemon-runs"} {
+		"reports-with-10+-raw-requests", "reports-accepted-by-chain", "data-sources-edited-while-the-daemon-runs", "requests-already-resolved-by-others-when-the-event-arrives"} {
 		run.Require(cn, 1)
 	}
 	run.Finish()
